@@ -34,7 +34,7 @@ def run(ctx):
     exe = ctx.compile_harness([os.path.join(HERE, "harness", "interactors.cc")], "interactors",
                               libs=L.LIBS, test_includes=True)
     L.load_element_data(ctx, exe)
-    n = 1.0 if quick else 12.0
+    n = 0.6 if quick else 12.0
     cases = L.gen_cases(ctx, n)
     ctx.log("cases: %d" % len(cases))
     impl = L.run_impl(ctx, exe, cases)
